@@ -29,7 +29,14 @@ import (
 //	                          with a raw dump of the bucket tree.
 //
 // value text: N | S<wire> | i<int32> | I<int64> | n<int> | F<hex16 bits> | B0 | B1 | T<hex of
-// UTC MarshalBinary> | M(<wire>=V,…) | L(V,…) | U (a dynamic type setMarshaled does not know)
+// UTC MarshalBinary>[/<representation>] | M(<wire>=V,…) | L(V,…) | U (a dynamic type setMarshaled does
+// not know).  The representation of a time (c13_time.go): u = UTC, f<off> = FixedZone(off seconds),
+// l<off> = time.Local set to such a zone, L<off> = the process's own Local (offset at the instant),
+// n<off> = a value derived from time.Now() (monotonic reading) with time.Local = that zone; without
+// representation the zone is one of six chosen by the payload.
+//
+//	tm <sec> <nsec> <representation>   time.Time.MarshalBinary on the value as given, then UnmarshalBinary
+//	tu <w>                             time.Time.UnmarshalBinary of arbitrary bytes
 func init() {
 	register("c13", &propHarness{gen: c13Gen, exec: c13Exec})
 }
@@ -39,6 +46,7 @@ func init() {
 type c13Val struct {
 	kind byte // N S i I n F B T M L U
 	s    string
+	z    string // representation of a time (T), "" = chosen by the payload
 	i    int64
 	bits uint64
 	keys []string
@@ -51,9 +59,15 @@ func (v *c13Val) text(b *strings.Builder) {
 	switch v.kind {
 	case 'N', 'U':
 		b.WriteByte(v.kind)
-	case 'S', 'T':
+	case 'S':
 		b.WriteByte(v.kind)
 		b.WriteString(c13Wire(v.s))
+	case 'T':
+		b.WriteByte(v.kind)
+		b.WriteString(c13Wire(v.s))
+		if v.z != "" {
+			b.WriteString("/" + v.z)
+		}
 	case 'i', 'I', 'n':
 		b.WriteByte(v.kind)
 		b.WriteString(strconv.FormatInt(v.i, 10))
@@ -117,8 +131,15 @@ func (p *c13Parser) value() *c13Val {
 		c := p.s[p.p]
 		p.p++
 		return &c13Val{kind: 'B', i: int64(c - '0')}
-	case 'S', 'T':
+	case 'S':
 		return &c13Val{kind: k, s: fromWire(p.tok())}
+	case 'T':
+		t := p.tok()
+		z := ""
+		if i := strings.IndexByte(t, '/'); i >= 0 {
+			t, z = t[:i], t[i+1:]
+		}
+		return &c13Val{kind: k, s: fromWire(t), z: z}
 	case 'i', 'I', 'n':
 		n, err := strconv.ParseInt(p.tok(), 10, 64)
 		if err != nil {
@@ -159,23 +180,6 @@ func c13ParseValue(s string) *c13Val {
 	return p.value()
 }
 
-var c13Zones = []*time.Location{time.UTC, time.FixedZone("ist", 5*3600+1800), time.FixedZone("pst", -8*3600),
-	time.FixedZone("kiri", 14*3600), time.FixedZone("odd", -(3*3600 + 27*60 + 13)), time.FixedZone("", 0)}
-
-// c13Time rebuilds the time.Time from the UTC-marshalled payload and moves it into a zone chosen
-// by the payload, so that writers see non-UTC times.
-func c13Time(payload string) time.Time {
-	var t time.Time
-	if err := t.UnmarshalBinary([]byte(payload)); err != nil {
-		panic("bad time payload in case")
-	}
-	h := 0
-	for i := 0; i < len(payload); i++ {
-		h += int(payload[i])
-	}
-	return t.In(c13Zones[h%len(c13Zones)])
-}
-
 type c13Unsupported struct{ x int }
 
 func (v *c13Val) toGo() interface{} {
@@ -195,7 +199,7 @@ func (v *c13Val) toGo() interface{} {
 	case 'B':
 		return v.i != 0
 	case 'T':
-		return c13Time(v.s)
+		return c13Time(v)
 	case 'M':
 		m := map[string]interface{}{}
 		for i, k := range v.keys {
@@ -360,6 +364,8 @@ func c13ErrName(err error) string {
 		return "unsupported"
 	case strings.Contains(m, "is required"):
 		return "required"
+	case strings.Contains(m, "Time.MarshalBinary"):
+		return "timeMarshal"
 	}
 	return "other:" + m
 }
@@ -454,11 +460,11 @@ func c13Apply(ctx *boltz.PersistContext, op c13Op, idx int, obs *[]string) {
 			ctx.SetBool(op.field, v.i != 0)
 		}
 	case "time":
-		tb.SetTime(op.field, c13Time(v.s), chk)
+		tb.SetTime(op.field, c13Time(v), chk)
 	case "timep":
 		var p *time.Time
 		if v.kind == 'T' {
-			t := c13Time(v.s)
+			t := c13Time(v)
 			p = &t
 		}
 		if op.pre {
@@ -732,6 +738,7 @@ func c13ExecE(toks []string) string {
 }
 
 func c13Exec(line string) string {
+	time.Local = c13OrigLocal // a case may have pointed it at a zone of its own (c13_time.go)
 	f := fields(line)
 	switch f[0] {
 	case "k":
@@ -765,6 +772,10 @@ func c13Exec(line string) string {
 		return c13ExecE(f[1:])
 	case "h":
 		return c13ExecH(f[1:])
+	case "tm":
+		return c13ExecTM(f[1:])
+	case "tu":
+		return c13ExecTU(f[1:])
 	}
 	return "bad-case"
 }
